@@ -22,6 +22,7 @@ DECIDED = [
     "R-C18-FLOW: in Depends.resolve and actor_run names and awaited values come from the same mapping in the same order (keys()/values(), "
     "gather without return_exceptions, dict(zip(...))), are passed as **kwargs to the provider / actor, and the provider's awaited value is returned",
     "R-C18-FLOW (predicate): asyncify decides 'already a coroutine function' with asyncio.iscoroutinefunction",
+    "R-C18-OVERRIDE (round 5): Depends defines neither __eq__ nor __hash__ (override tables are keyed by object identity)",
 ]
 NOT_DECIDED = ["value equality over whole dependency graphs", "shared sub-dependency call counts"]
 ASSUMPTIONS = ["asyncio.gather preserves argument order in its result; dict preserves insertion order"]
@@ -242,6 +243,10 @@ def override(ctx: Ctx, rule="R-C18-OVERRIDE") -> None:
             ctx.check(ok, rule, m, f"self._fn = asyncify(fn, ...) in {m.short()}", "the given provider", f"{m.short()} stores {unparse(v)[:60]} as provider", node=s,
                       instance=f"_fn value in {m.name}")
     ctx.floor(rule, n, 2, "stores to Depends._fn")
+    bad_dunder = sorted(m_ for m_ in ("__eq__", "__hash__") if m_ in c.methods)
+    ctx.check(not bad_dunder, rule, c.qualname, "every Depends declaration is its own object", "identity equality / hash",
+              f"Depends defines {bad_dunder}: typing caches Annotated[...] aliases by the equality of their arguments, so two declarations with equal providers collapse into ONE Depends object - "
+              "overriding one of them is then (not) seen through the other", instance="Depends identity")
     u = ctx.func(f"{DEPENDS}._update_subdependencies")
     g = ctx.cfg(u)
     resets = [s for s in g.nodes if s.kind == "store" and s.target == "self._subdependencies" and isinstance(s.meta.get("value"), ast.Dict) and not s.meta["value"].keys]
